@@ -25,6 +25,8 @@ func init() {
 			ro.noLostUpdate(r, "no-lost-update")
 			// a changed limit governs the jobs started after the change: the reload path applies every detected edit
 			checkReloadUsesEquals(w, r)
+			// … and the runner's reload installs exactly the definitions it was given (nothing of the old ones is carried over)
+			ro.reloadModset(r, "reload-effects")
 			// the count ranges over the pipeline's job list: a job that still counts as executing is never taken off it
 			retentionTable(w, r)
 			r.Floor("table.", 4)
